@@ -858,6 +858,191 @@ theorem good_readLoop (pl off0 cnt0 : Nat) (ha : off0 % CS = 0) (hin : off0 + cn
             refine ⟨r.log ++ lg', by rw [hk1]; simp, ?_⟩
             rw [stored_append, List.length_append, ← Nat.add_assoc]; exact hk2
 
+/-! #### a well-behaved reader is consumed completely, up to the room left in the range -/
+
+/-- a reader that does not end the copy early: every read but the last delivers some bytes and
+    no error (the last may end with EOF, fail, or be empty) -/
+def Nice : Src → Prop
+  | [] => True
+  | [_] => True
+  | x :: y :: r => x.1 ≠ [] ∧ x.2 = .none ∧ Nice (y :: r)
+
+theorem Nice.tail {x : Bytes × RErr} {r : Src} (h : Nice (x :: r)) : Nice r := by
+  cases r with
+  | nil => trivial
+  | cons y r => exact h.2.2
+
+theorem Nice.dropHead {d : Bytes} {e : RErr} {r : Src} (h : Nice ((d, e) :: r)) (k : Nat)
+    (hk : k < d.length) : Nice ((d.drop k, e) :: r) := by
+  cases r with
+  | nil => trivial
+  | cons y r =>
+    refine ⟨?_, h.2.1, h.2.2⟩
+    intro hnil
+    have := congrArg List.length hnil
+    simp at this; omega
+
+theorem srcBytes_cons (d : Bytes) (e : RErr) (r : Src) : srcBytes ((d, e) :: r) = d.length + srcBytes r := by
+  simp [srcBytes]
+
+theorem srcAll_cons (d : Bytes) (e : RErr) (r : Src) : srcAll ((d, e) :: r) = d ++ srcAll r := by
+  simp [srcAll]
+
+theorem srcRead_cons_fit (d : Bytes) (e : RErr) (r : Src) (k : Nat) (h : d.length ≤ k) :
+    srcRead ((d, e) :: r) k = (d, e, r) := by simp [srcRead, h]
+
+theorem srcRead_cons_cut (d : Bytes) (e : RErr) (r : Src) (k : Nat) (h : ¬ d.length ≤ k) :
+    srcRead ((d, e) :: r) k = (d.take k, .none, (d.drop k, e) :: r) := by simp [srcRead, h]
+
+theorem good_room (pl off0 cnt0 s b count : Nat) (ha : off0 % CS = 0) (hin : off0 + cnt0 ≤ pl)
+    (hg : s = addCount pl off0 (s + b)) (hc : count + s = cnt0) (hb : b ≤ count) :
+    b ≤ (if count < WIN then count else WIN) ∧
+    ((if count < WIN then count else WIN) = b → count = b) ∧
+    (0 < count → (off0 + s) % CS = 0 ∧ off0 + s < pl) := by
+  unfold addCount at hg
+  simp only [CS, WIN] at *
+  by_cases c0 : s + b ≥ pl - off0 <;> by_cases cw : count < 32768 <;>
+    simp only [c0, cw, ↓reduceIte] at hg ⊢ <;> omega
+
+theorem addAt_opn_err (pl : Nat) (st : Store) (off : Nat) (data : Bytes) (hm : st.mode = .opn)
+    (h1 : off % CS = 0) (h2 : off < pl) : (addAt pl st off data).2.err = .none := by
+  unfold addAt addData
+  simp only [hm]
+  rw [if_neg (by omega), if_neg (by omega)]
+
+theorem wwrite_err {σ : Type} (add : σ → Nat → Bytes → σ × AddRes) (st : σ) (w : W) (data : Bytes) :
+    (wwrite add st w data).err = (add st w.offset data).2.err := by
+  unfold wwrite; dsimp only; split <;> rfl
+
+theorem consumes_readLoop (pl off0 cnt0 : Nat) (ha : off0 % CS = 0) (hin : off0 + cnt0 ≤ pl)
+    (hpl : pl < U32) :
+    ∀ (fuel : Nat) (st : Store) (w : W) (src : Src) (acc : Out) (s : Nat), WInv off0 cnt0 w s →
+      Good pl off0 st w s → Nice src → srcBytes src < fuel →
+      (readLoop (addAt pl) true fuel st w src acc).2.2.rd
+        = acc.rd ++ (srcAll src).take (w.count - w.buf.length) := by
+  have hU : off0 + cnt0 < U32 := by omega
+  intro fuel
+  induction fuel with
+  | zero => intro st w src acc s _ _ _ hf; omega
+  | succ fuel ih =>
+    intro st w src acc s h hg hnice hfuel
+    obtain ⟨ho, hc, hb, hop⟩ := h
+    obtain ⟨r1, r2, r3⟩ := good_room pl off0 cnt0 s w.buf.length w.count ha hin hg.2 hc hb
+    unfold readLoop
+    dsimp only
+    rw [if_neg (by omega)]
+    generalize hmax : (if w.count < WIN then w.count else WIN) = max at r1 r2
+    have hmaxle : max ≤ w.count := by rw [← hmax]; split <;> omega
+    cases src with
+    | nil => simp [srcRead, srcAll]
+    | cons x rest =>
+      obtain ⟨d0, e0⟩ := x
+      rw [srcAll_cons]
+      rw [srcBytes_cons] at hfuel
+      by_cases hfit : d0.length ≤ max - w.buf.length
+      · -- the whole read fits the window
+        rw [srcRead_cons_fit _ _ _ _ hfit]
+        dsimp only
+        by_cases hd0 : d0.length = 0
+        · rw [if_pos hd0]
+          have hd0' : d0 = [] := List.length_eq_zero_iff.1 hd0
+          cases rest with
+          | nil => simp [hd0', srcAll]
+          | cons y r => exact absurd hd0' hnice.1
+        · rw [if_neg hd0]
+          have hcpos : 0 < w.count := by omega
+          obtain ⟨a1, a2⟩ := r3 hcpos
+          have hdlen : (w.buf ++ d0).length ≤ w.count := by simp; omega
+          have hbl : w.buf.length ≤ (w.buf ++ d0).length := by simp
+          obtain ⟨h1, h2, h3, h4, h5, h6, h7, _⟩ :=
+            wwrite_spec (addAt pl) (addAt_countLe pl) hU st { w with buf := w.buf ++ d0 } (w.buf ++ d0) ho hc hdlen
+          obtain ⟨g1, g2⟩ := good_wwrite pl off0 cnt0 s w.buf.length ha hin st
+            { w with buf := w.buf ++ d0 } (w.buf ++ d0) ho hc hdlen hbl hg.1 hg.2
+          have herr : (wwrite (addAt pl) st { w with buf := w.buf ++ d0 } (w.buf ++ d0)).err = .none := by
+            rw [wwrite_err]; exact addAt_opn_err pl st _ _ hg.1 (by rw [ho]; exact a1) (by rw [ho]; exact a2)
+          generalize (wwrite (addAt pl) st { w with buf := w.buf ++ d0 } (w.buf ++ d0)) = r
+            at h1 h2 h3 h4 h5 h6 h7 g1 g2 herr
+          rw [if_neg (by omega)]
+          have htake : (d0 ++ srcAll rest).take (w.count - w.buf.length)
+              = d0 ++ (srcAll rest).take (w.count - w.buf.length - d0.length) := by
+            rw [List.take_append, List.take_of_length_le (l := d0) (by omega)]
+          by_cases her : e0 ≠ .none
+          · rw [if_pos her]
+            -- an error with the data: by niceness this was the last read
+            cases rest with
+            | nil => dsimp only; rw [htake]; simp [srcAll]
+            | cons y r => exact absurd hnice.2.1 her
+          · rw [if_neg her, if_neg (by simp [herr])]
+            have hsl : (stored r.log).length = r.n := by rw [h7, List.length_take]; omega
+            have hinv : WInv off0 cnt0 { r.w with buf := (w.buf ++ d0).drop r.n } (s + (stored r.log).length) :=
+              ⟨by rw [hsl]; simpa [Nat.add_assoc] using h2, by rw [hsl]; dsimp only; omega,
+               by dsimp only; rw [List.length_drop]; omega, by dsimp only; rw [h5]; exact hop⟩
+            have hgood : Good pl off0 r.st { r.w with buf := (w.buf ++ d0).drop r.n } (s + (stored r.log).length) := by
+              refine ⟨g1, ?_⟩
+              dsimp only
+              rw [hsl, List.length_drop, g2]; congr 1; omega
+            have e1 : (w.buf ++ d0).length = w.buf.length + d0.length := List.length_append
+            have hAB : w.count - w.buf.length - d0.length
+                = r.w.count - ((w.buf ++ d0).drop r.n).length := by
+              rw [List.length_drop]; omega
+            rw [ih r.st _ rest _ _ hinv hgood hnice.tail (by omega)]
+            dsimp only
+            rw [htake, List.append_assoc, hAB]
+      · -- only the first `k` bytes of the read fit
+        rw [srcRead_cons_cut _ _ _ _ hfit]
+        dsimp only
+        have hk : max - w.buf.length < d0.length := by omega
+        by_cases hd0 : (d0.take (max - w.buf.length)).length = 0
+        · rw [if_pos hd0]
+          -- the window is empty: the range is full
+          have hk0 : max - w.buf.length = 0 := by
+            rw [List.length_take] at hd0; omega
+          have : w.count = w.buf.length := r2 (by omega)
+          simp [this]
+        · rw [if_neg hd0]
+          have hkpos : 0 < max - w.buf.length := by
+            rw [List.length_take] at hd0; omega
+          have hklen : (d0.take (max - w.buf.length)).length = max - w.buf.length := by
+            rw [List.length_take]; omega
+          have hcpos : 0 < w.count := by omega
+          obtain ⟨a1, a2⟩ := r3 hcpos
+          generalize hdd : d0.take (max - w.buf.length) = d at hklen hd0
+          have hdlen : (w.buf ++ d).length ≤ w.count := by simp; omega
+          have hbl : w.buf.length ≤ (w.buf ++ d).length := by simp
+          obtain ⟨h1, h2, h3, h4, h5, h6, h7, _⟩ :=
+            wwrite_spec (addAt pl) (addAt_countLe pl) hU st { w with buf := w.buf ++ d } (w.buf ++ d) ho hc hdlen
+          obtain ⟨g1, g2⟩ := good_wwrite pl off0 cnt0 s w.buf.length ha hin st
+            { w with buf := w.buf ++ d } (w.buf ++ d) ho hc hdlen hbl hg.1 hg.2
+          have herr : (wwrite (addAt pl) st { w with buf := w.buf ++ d } (w.buf ++ d)).err = .none := by
+            rw [wwrite_err]; exact addAt_opn_err pl st _ _ hg.1 (by rw [ho]; exact a1) (by rw [ho]; exact a2)
+          generalize (wwrite (addAt pl) st { w with buf := w.buf ++ d } (w.buf ++ d)) = r
+            at h1 h2 h3 h4 h5 h6 h7 g1 g2 herr
+          rw [if_neg (by omega), if_neg (by simp), if_neg (by simp [herr])]
+          have hsl : (stored r.log).length = r.n := by rw [h7, List.length_take]; omega
+          have hinv : WInv off0 cnt0 { r.w with buf := (w.buf ++ d).drop r.n } (s + (stored r.log).length) :=
+            ⟨by rw [hsl]; simpa [Nat.add_assoc] using h2, by rw [hsl]; dsimp only; omega,
+             by dsimp only; rw [List.length_drop]; omega, by dsimp only; rw [h5]; exact hop⟩
+          have hgood : Good pl off0 r.st { r.w with buf := (w.buf ++ d).drop r.n } (s + (stored r.log).length) := by
+            refine ⟨g1, ?_⟩
+            dsimp only
+            rw [hsl, List.length_drop, g2]; congr 1; omega
+          have hn' : Nice ((d0.drop (max - w.buf.length), e0) :: rest) := hnice.dropHead _ hk
+          have hfuel' : srcBytes ((d0.drop (max - w.buf.length), e0) :: rest) < fuel := by
+            rw [srcBytes_cons, List.length_drop]; omega
+          rw [ih r.st _ _ _ _ hinv hgood hn' hfuel']
+          dsimp only
+          rw [srcAll_cons, List.append_assoc]
+          congr 1
+          -- (d0 ++ R).take (k + m) = d0.take k ++ (d0.drop k ++ R).take m
+          have hroom : w.count - w.buf.length
+              = (max - w.buf.length) + ((r.w.count) - ((w.buf ++ d).drop r.n).length) := by
+            have e1 : (w.buf ++ d).length = w.buf.length + d.length := List.length_append
+            rw [List.length_drop]; omega
+          rw [hroom, List.take_add, ← hdd]
+          congr 1
+          · rw [List.take_append_of_le_length (Nat.le_of_lt hk)]
+          · rw [List.drop_append_of_le_length (Nat.le_of_lt hk)]
+
 /-- the run-level statement: no interference with the store, which accepts data all along -/
 def plainOp : Op Store → Prop
   | .env _ => False
@@ -946,6 +1131,147 @@ theorem C14_writer_split_independent (pl off0 cnt0 : Nat) (ha : off0 % CS = 0)
   obtain ⟨_, k⟩ := good_run pl off0 cnt0 ha hin hpl ops hp _ (RInv.init (addAt pl) st off0 cnt0) hm h0
   have k' : (stored r.log).length = addCount pl off0 r.consumed.length := k
   rw [← k', ← hr.data, List.take_left]
+
+/-! #### … and consumes everything offered, up to the room in the range -/
+
+/-- calls that offer data: `Write`, or `ReadFrom` with a reader that does not end the copy early -/
+def offerOp : Op Store → Prop
+  | .write _ => True
+  | .readFrom src => Nice src
+  | _ => False
+
+/-- the stream offered by a sequence of calls -/
+def offered : List (Op Store) → Bytes
+  | [] => []
+  | .write p :: ops => p ++ offered ops
+  | .readFrom src :: ops => srcAll src ++ offered ops
+  | _ :: ops => offered ops
+
+theorem write_rd {σ : Type} (add : σ → Nat → Bytes → σ × AddRes) (hle : CountLe add) (st : σ) (w : W)
+    (p : Bytes) (hop : w.closed = false) (hb : w.buf.length ≤ w.count) :
+    (write add st w p).2.2.rd = p.take (w.count - w.buf.length) ∧ (write add st w p).2.1.closed = false := by
+  unfold write
+  rw [if_neg (by simp [hop]), if_neg (by omega)]
+  dsimp only
+  have h := hle st w.offset (w.buf ++ List.take (w.count - w.buf.length) p)
+  have hn : (wwrite add st w (w.buf ++ List.take (w.count - w.buf.length) p)).n
+      ≤ (w.buf ++ List.take (w.count - w.buf.length) p).length := by
+    unfold wwrite; dsimp only; split
+    · exact h
+    · exact Nat.zero_le _
+  have hc : (wwrite add st w (w.buf ++ List.take (w.count - w.buf.length) p)).w.closed = false := by
+    unfold wwrite; dsimp only; split <;> exact hop
+  rw [if_neg (by omega)]
+  exact ⟨rfl, hc⟩
+
+theorem take_extend (X Y c : Bytes) (n : Nat) (hc : c = X.take n) :
+    c ++ Y.take (n - c.length) = (X ++ Y).take n := by
+  subst hc
+  rw [List.take_append, List.length_take]
+  by_cases h : X.length ≤ n
+  · rw [Nat.min_eq_right h]
+  · have h' : n ≤ X.length := by omega
+    rw [Nat.min_eq_left h']
+    have : n - X.length = 0 := by omega
+    rw [this, Nat.sub_self]
+
+theorem consumes_run (pl off0 cnt0 : Nat) (ha : off0 % CS = 0) (hin : off0 + cnt0 ≤ pl) (hpl : pl < U32)
+    (ops : List (Op Store)) : (∀ op ∈ ops, offerOp op) →
+    ∀ (r : Run Store) (X : Bytes), RInv (addAt pl) off0 cnt0 r → r.w.closed = false → r.st.mode = .opn →
+      (stored r.log).length = addCount pl off0 r.consumed.length → r.consumed = X.take cnt0 →
+      (run (addAt pl) true r ops).consumed = (X ++ offered ops).take cnt0 := by
+  have hU : off0 + cnt0 < U32 := by omega
+  induction ops with
+  | nil => intro _ r X _ _ _ _ hX; simpa [run, offered] using hX
+  | cons op rest ih =>
+    intro hp r X hr hcl h1 h2 hX
+    have hplain : ∀ o ∈ [op], plainOp o := by
+      intro o ho
+      have : o = op := by simpa using ho
+      subst this
+      have := hp o (List.mem_cons_self ..)
+      cases o <;> simp_all [plainOp, offerOp]
+    have hr' := RInv.step (addAt pl) (addAt_countLe pl) hU r hr op
+    obtain ⟨k1, k2⟩ := good_run pl off0 cnt0 ha hin hpl [op] hplain r hr h1 h2
+    have hi := hr.opn hcl
+    have hroom : r.w.count - r.w.buf.length = cnt0 - r.consumed.length := by
+      have e := hr.data
+      have : r.consumed.length = (stored r.log).length + r.w.buf.length := by
+        rw [← e, List.length_append]
+      have := hi.cnt; have := hi.buf
+      omega
+    have hrest : ∀ o ∈ rest, offerOp o := fun o ho => hp o (List.mem_cons_of_mem _ ho)
+    have hop := hp op (List.mem_cons_self ..)
+    rw [show run (addAt pl) true r (op :: rest)
+        = run (addAt pl) true (Run.step (addAt pl) true r op) rest from rfl]
+    cases op with
+    | close => exact absurd hop (by simp [offerOp])
+    | env f => exact absurd hop (by simp [offerOp])
+    | write p =>
+      obtain ⟨e1, e2⟩ := write_rd (addAt pl) (addAt_countLe pl) r.st r.w p hcl hi.buf
+      have hcons : (Run.step (addAt pl) true r (.write p)).consumed = (X ++ p).take cnt0 := by
+        show r.consumed ++ (write (addAt pl) r.st r.w p).2.2.rd = _
+        rw [e1, hroom]
+        exact take_extend X p r.consumed cnt0 hX
+      have := ih hrest _ (X ++ p) hr' e2 k1 k2 hcons
+      rw [this]; simp [offered, List.append_assoc]
+    | readFrom src =>
+      have hg : Good pl off0 r.st r.w (stored r.log).length := ⟨h1, by
+        have e := hr.data
+        have : r.consumed.length = (stored r.log).length + r.w.buf.length := by
+          rw [← e, List.length_append]
+        rw [← this]; exact h2⟩
+      have hrf : readFrom (addAt pl) true r.st r.w src
+          = readLoop (addAt pl) true (srcBytes src + 1) r.st r.w src {} := by
+        unfold readFrom
+        rw [if_neg (by simp [hcl]), if_neg (by have := hi.buf; omega)]
+      have e1 := consumes_readLoop pl off0 cnt0 ha hin hpl (srcBytes src + 1) r.st r.w src {} _ hi hg hop
+        (Nat.lt_succ_self _)
+      have e2 : (readFrom (addAt pl) true r.st r.w src).2.1.closed = false :=
+        (readFrom_spec (addAt pl) (addAt_countLe pl) hU r.st r.w src hi).1.inv.opn
+      have hcons : (Run.step (addAt pl) true r (.readFrom src)).consumed = (X ++ srcAll src).take cnt0 := by
+        show r.consumed ++ (readFrom (addAt pl) true r.st r.w src).2.2.rd = _
+        rw [hrf, e1, hroom]
+        simp only [List.nil_append]
+        exact take_extend X (srcAll src) r.consumed cnt0 hX
+      have := ih hrest _ (X ++ srcAll src) hr' e2 k1 k2 hcons
+      rw [this]; simp [offered, List.append_assoc]
+
+/-- **The writer consumes everything offered.**  Modelled store accepting data all along, a range
+    as maybeWebseed produces it, any sequence of `Write`s and of `ReadFrom`s from readers that do
+    not end the copy early (every read but the last delivers data and no error): the bytes
+    accepted are exactly the first `count₀` bytes of the concatenation of what was offered —
+    however it was cut.  With `C14_writer_split_independent`: two ways of cutting the same
+    stream into calls and reads commit exactly the same bytes. -/
+theorem C14_writer_consumes_all (pl off0 cnt0 : Nat) (ha : off0 % CS = 0) (hin : off0 + cnt0 ≤ pl)
+    (hpl : pl < U32) (st : Store) (hm : st.mode = .opn) (ops : List (Op Store))
+    (hp : ∀ op ∈ ops, offerOp op) :
+    (run (addAt pl) true (Run.init st off0 cnt0) ops).consumed = (offered ops).take cnt0 := by
+  have h0 : (stored (Run.init st off0 cnt0).log).length
+      = addCount pl off0 (Run.init st off0 cnt0).consumed.length := by
+    simp only [Run.init, stored, List.map_nil, List.flatten_nil, List.length_nil]
+    unfold addCount; simp only [CS]; split <;> omega
+  have := consumes_run pl off0 cnt0 ha hin hpl ops hp (Run.init st off0 cnt0) []
+    (RInv.init (addAt pl) st off0 cnt0) rfl hm h0 (by simp [Run.init])
+  simpa using this
+
+/-- two cuts of one stream commit the same bytes -/
+theorem C14_writer_same_stream_same_result (pl off0 cnt0 : Nat) (ha : off0 % CS = 0)
+    (hin : off0 + cnt0 ≤ pl) (hpl : pl < U32) (st st' : Store) (hm : st.mode = .opn)
+    (hm' : st'.mode = .opn) (ops ops' : List (Op Store)) (hp : ∀ op ∈ ops, offerOp op)
+    (hp' : ∀ op ∈ ops', offerOp op) (hs : offered ops = offered ops') :
+    stored (run (addAt pl) true (Run.init st off0 cnt0) ops).log
+      = stored (run (addAt pl) true (Run.init st' off0 cnt0) ops').log := by
+  have pl1 : ∀ op ∈ ops, plainOp op := fun o ho => by
+    have := hp o ho; cases o <;> simp_all [plainOp, offerOp]
+  have pl2 : ∀ op ∈ ops', plainOp op := fun o ho => by
+    have := hp' o ho; cases o <;> simp_all [plainOp, offerOp]
+  have a := C14_writer_split_independent pl off0 cnt0 ha hin hpl st hm ops pl1
+  have b := C14_writer_split_independent pl off0 cnt0 ha hin hpl st' hm' ops' pl2
+  have ca := C14_writer_consumes_all pl off0 cnt0 ha hin hpl st hm ops hp
+  have cb := C14_writer_consumes_all pl off0 cnt0 ha hin hpl st' hm' ops' hp'
+  dsimp only at a b
+  rw [a, b, ca, cb, hs]
 
 /-- The theorems above are about the repaired `ReadFrom`.  The pinned one (`fixed = false`) faults:
     a piece that has become complete (AddData returns 0), `Write` of more than 32768 bytes, then
@@ -1075,6 +1401,65 @@ theorem C14_response_validation_unfixed_refuted :
     grDecide false 206 [] "bytes 0-9/100".toList 100 0 16384 = .accept none := by
   decide
 
+
+/-! ### Hoffman.Get: response validation
+
+(The request itself asks for `ranges=o-(o+l)`, one byte more than the inclusive range
+`o…o+l-1`; that is outside this property — what the server sends beyond `l` bytes never reaches
+the piece, by the statements below.) -/
+
+/-- **Hoffman validation.**  A response is accepted only with status 200 and either no
+    Content-Length (then the body is read through `io.LimitReader(length)`) or a Content-Length
+    equal to the requested length. -/
+theorem C14_hoffman_validation (status : Nat) (cl : List Char) (length : Nat) (lim : Bool)
+    (h : hDecide status cl length = .accept lim) :
+    status = 200 ∧ ((cl = [] ∧ lim = true) ∨ (parseInt64 cl = some (length : Int) ∧ lim = false)) := by
+  unfold hDecide at h
+  by_cases hs : status ≠ 200
+  · rw [if_pos hs] at h; simp at h
+  · rw [if_neg hs] at h
+    have hs' : status = 200 := by omega
+    by_cases hcl : cl.isEmpty
+    · rw [if_pos hcl] at h
+      simp only [HDecision.accept.injEq] at h
+      exact ⟨hs', Or.inl ⟨List.isEmpty_iff.1 hcl, h.symm⟩⟩
+    · rw [if_neg hcl] at h
+      cases hp : parseInt64 cl with
+      | none => rw [hp] at h; simp at h
+      | some v =>
+        rw [hp] at h
+        dsimp only at h
+        by_cases hv : v ≠ (length : Int)
+        · rw [if_pos hv] at h; simp at h
+        · rw [if_neg hv] at h
+          simp only [HDecision.accept.injEq] at h
+          have : v = (length : Int) := by omega
+          exact ⟨hs', Or.inr ⟨by rw [this], h.symm⟩⟩
+
+/-- at most `length` bytes are handed to the writer: by the LimitReader when there is no
+    Content-Length, by HTTP framing (the client delivers at most Content-Length = `length` bytes of
+    body) otherwise -/
+theorem C14_hoffman_body_clipped (lim : Bool) (body : Src) (length : Nat)
+    (hframe : lim = false → (srcAll body).length ≤ length) :
+    (srcAll (hSrc lim body length)).length ≤ length := by
+  unfold hSrc
+  cases lim with
+  | true => simp only [if_true]; rw [limitSrc_all, List.length_take]; exact Nat.min_le_left _ _
+  | false => simpa using hframe rfl
+
+/-- and whatever reader it copies from — even a body longer than announced — the writer
+    `webseedH` creates for `(offset, length)` accepts at most `length` bytes and hands nothing
+    to the store outside `[offset, offset+length)` -/
+theorem C14_hoffman_writer_bound {σ : Type} (add : σ → Nat → Bytes → σ × AddRes) (hle : CountLe add)
+    (offset length : Nat) (hU : offset + length < U32) (st : σ) (src : Src) :
+    let r := run add true (Run.init st offset length) [.readFrom src, .close]
+    r.panic = false ∧ r.consumed.length ≤ length ∧
+    ∀ e ∈ r.log, offset ≤ e.1 ∧ e.1 + e.2.length ≤ offset + length := by
+  intro r
+  have h := C14_writer_exact add hle offset length hU st [.readFrom src, .close]
+  refine ⟨C14_writer_no_panic add hle offset length hU st _, h.2.1, fun e he => ?_⟩
+  obtain ⟨a, b, _⟩ := h.2.2 e he
+  exact ⟨a, b⟩
 
 /-! ### the whole fetch: tor.webseedGR is a sequence of ReadFrom calls on one writer, then Close -/
 
